@@ -54,15 +54,25 @@ CLAIMS = {
          "columns are those sizes in order (cover_columns, coverJds_eq), entries are per-vertex clique counts (cover_counts), the table is their empirical distribution (cover_jdd), "
          "and column sums are size times the number of cliques of that size (cover_handshake) so the generators' handshake holds.",
          TB + "frequencies are recovered as exact rationals from the int/int floats."),
- "C13": ("Model of the (repaired) extractor with its persistent counter; correspondence compares every matrix entry as an exact rational over 1-4 successive calls. Theorems (Properties/C13.lean) "
-         "are listed in the evidence file on every run.",
-         TB + "float accumulations are mapped back to exact rationals with denominator 2E."),
- "C14": ("Model of all static conversion functions over exact rationals, compared entry by entry with the real functions run on an exact number type, including the inversion with the code's "
-         "own choice of common key. Theorems (Properties/C14.lean) are listed in the evidence file on every run.",
-         TB + "the arbitrary common key is read from the code's own expression and passed to the model."),
+ "C13": ("For every annotated network (uniform tuple length, annotated end points) each matrix entry is exactly the fraction of that topology's edge ends with own excess a and partner excess b (ejk_value), hence symmetric, summing to 1 and with the stated row sums (ejk_symmetric, ejk_sums_one, ejk_row_sums); every one of any number of successive get_ejks() calls returns the first call's matrices (get_ejks_repeatable, get_ejks_state_independent; second_call_halves is the kernel-checked witness of the pinned behaviour); key halves are listed (excess_keys_cover, split_keys_spec); the overall-degree variant obeys the same law (overall_value/symmetric/sums_one).",
+         TB + "float accumulations of 1/E and 0.5/E are mapped back to exact rationals with denominator 2E before comparison."),
+ "C14": ("average_value, excess_value/support/sums_one/error_iff, invert_single_value, invert_of_excess and the main theorem invert_excess / invert_excess_nonneg: for every admissible common key and every list of distinct names the inversion returns P conditioned on k != 0; row_sums_are_excess / row_sums_over_matrix; jdd_from_network_value/sums_one. A proof-forced hypothesis (total mass of non-zero keys != 0) is shown necessary by a kernel-checked counterexample with a negative mass.",
+         TB + "the static functions run on an exact rational number type; the common key picked by the code is passed to the model, the theorem shows the result does not depend on it."),
  "C18": ("kept_iff / kept_list_form (each edge's fate depends on its own draw only), phi_one_exact, phi_zero (for draws > 0), multiple_of_inv_N, empty_graph_raises, star_counts_kept "
          "(N*S-1 = number of retained edges on a star), on top of a proved specification of the executable reachability (Lemmas/Reach: mem_comp_iff, fuel |V| suffices).",
          TB + "random.random() assumed i.i.d. uniform; networkx component semantics re-defined in Model/Graph.lean and compared per case."),
+ "C09": ("For the relational model (a step may pick ANY non-zero-score clique, so every tie-break of the heuristic is covered): an invariant (cover members are cliques of the input of size 2..m0, pairwise edge-disjoint, input edges = working graph + covered pairs) is proved for init and every step (inv_init, inv_step) and yields cover_cliques, cover_exact, cover_exact_count, cover_disjoint, working_graph_empty, progress, run_terminates/run_exists, isolated_maximal_intact, candidates_subset; maximal cliques are a brute-force definition with a proved specification (mem_maximalCliques_iff, lmc_spec).",
+         TB + "nx.find_cliques is assumed to return exactly the maximal cliques (compared per instance through limited_maximal_cliques); the picks actually made by the code are replayed in the model, which checks each against its step relation."),
+ "C10": ("For every simple graph, every size limit 0 or >= 2 and every clique list satisfying the contract of enumerate_all_cliques in ANY order: sortDesc is a stable descending sort, accepted cliques are cliques within the limit and pairwise edge-disjoint, every edge lies in exactly one of them and carries exactly its label (size = member count, members, id = position), all pairs of an accepted clique carry its label, ids are unique, the graph is unchanged, and the cover is greedy-maximal (greedy_maximal); order_irrelevant lifts all of it to every shuffle outcome.",
+         TB + "nx.enumerate_all_cliques contract validated per instance against the brute-force allCliques of the model; the shuffle is the stdlib Fisher-Yates run on scripted draws."),
+ "C15": ("automated_exact: for EVERY finite simple motif (no connectedness or size hypothesis), every root and every commutative ring (hence as an identity of polynomials in phi and the u's) the model of automated_equation equals the exact expectation over independent edge occupation of the product of u over the other vertices of the root's component; built from connectedSubgraphs_spec (the backtracking lists each connected vertex set containing the root exactly once, fuel |V| suffices, the size cut-off is irrelevant), edgeCombinations_spec and the finset identity Perc.exactE_eq_autoE. value_independent_of_history / history_values_exact: for every sequence of calls on one evaluator each value equals the fresh value (caches hold structure only); a kernel-checked counterexample shows why distinct names are required.",
+         TB + "the real evaluator runs on exact polynomial arguments and is compared coefficient by coefficient; networkx set-level semantics re-defined in Model/Graph.lean."),
+ "C16": ("omega_closed; nocg_spec and QQ_spec (the brute-force counters count exactly the edge subsets whose deletion / retention leaves the graph connected, all n, k, substrates); Q = Qgen for all n <= 12 and all k (kernel-evaluated table, so the Cayley shortcut agrees with the shortcut-free recursion), Q_trees for all n, Q = connCount for n <= 5; cycle_closed_form and clique_expanded over any commutative ring. PARTIAL: Q_eq_connCount_full, Qgen_eq_connCount_full (Cayley's formula is not in Mathlib v4.33), clique_exact_full and cycle_exact_full are kept as visible unproved statements; they are checked as polynomial identities by the correspondence for tau <= 7 and n <= 12, including repeated neighbour values evaluated sequentially in one process.",
+         TB + "lru_cache assumed transparent; the equations run on exact polynomial arguments."),
+ "C17": ("message_is_expectation (every update is the exact expectation of its motif, from C15), neighbour_product_is_other_motifs (under a consistent cover whose motifs pairwise share at most one vertex), theoretical_formula, range (result and every message in [0,1] for every sweep count), zero_at_zero (iterations >= 1; kernel-checked that 0 sweeps gives a non-zero value), monotone (for EVERY iteration count, by induction over the individual in-place updates using Perc.exactE_antitone), fixed_point_stable, history_independent. PARTIAL: converges_full (the 25-sweep iterate is the fixed point) is analysis and is not proved; the harness compares 1-3 sweeps exactly and the default 25 sweeps in double precision to 1e-9.",
+         TB + "labels are taken in parsed form; the real label parser is checked by the harness against the generating structure; Python floats are outside the model except for the bit-exact comparison of the 25-sweep run to 1e-9."),
+ "C19": ("About the real-number functions the code computes: expo_nonneg/expo_hasSum_one, pois_nonneg/pois_hasSum_one, both truncation loops terminate in the documented parameter range (and the zeta loop provably does not for alpha <= 0), zeta_tail_bound (0 < zeta - C <= K*tol), powerLaw_close / powerLaw_sum (relative error K*tol), polylog_tail_bound, cutoff_close / cutoff_sum (relative error tol/(1-z)); zetaLoop_spec / polylogLoop_spec tie the executable rational loops of Model/Distributions.lean to these definitions. PARTIAL by nature: floating-point rounding and numpy.exp are outside the model and are covered only numerically (60-digit reference, relative 1e-9 plus the proved bound).",
+         TB + "numerical comparison with tolerances is used for this property only; for integer alpha the truncated normaliser and its stopping index are compared with the executable Lean model."),
 }
 
 NOT_YET = "not yet built in this revision (model, theorems and correspondence check are planned in DESIGN.md §6; the technique applies)"
